@@ -77,9 +77,7 @@ def order_violation(res):
     return None
 
 
-def needs_violation(sc, res):
-    """the clause 'a needs-branch starts after a needed sibling finished' on the engine's own trace, for every instance of the branch:
-    when a branch with `needs` leaves `pending`, a branch it names — an instance beneath the same instance of the step — is terminal"""
+def needs_table(sc):
     needs = {}
 
     def walk(ss):
@@ -89,21 +87,25 @@ def needs_violation(sc, res):
                     needs[b["id"]] = list(b["needs"])
                 walk(b.get("steps", []))
     walk(sc["models"][0]["steps"])
+    return needs
+
+
+def needs_request(sc, res):
+    """the clause 'a needs-branch starts after a needed sibling finished' on the engine's own trace, for every instance of the branch: the
+    predicate is `Spec.needsMonitor` (Lean, with its soundness theorem in Props/C04), evaluated by the driver on this stream"""
+    needs = needs_table(sc)
     if not needs:
         return None
-    state, info = {}, {}
+    evs, where = [], []
     for i, o in obs_of(res, {"new", "tr"}):
-        key = (o["pid"], o["tid"])
+        if o.get("pid") != "p1":
+            continue
         if o["k"] == "new":
-            info[key] = (o["nid"], o.get("prev"))
+            evs.append(["new", o["tid"], o["nid"], o.get("prev")])
         else:
-            if o["old"] == "pending" and o["new"] == "running" and info.get(key, ("",))[0] in needs:
-                nid, prev = info[key]
-                sibs = [k2 for k2, (n2, p2) in info.items() if p2 == prev and k2 != key and n2 in needs[nid]]
-                if not any(state.get(k2) in TERMINAL for k2 in sibs):
-                    return (i, nid, [(info[k2][0], state.get(k2)) for k2 in sibs])
-            state[key] = o["new"]
-    return None
+            evs.append(["tr", o["tid"], o["old"], o["new"]])
+        where.append((i, o.get("nid"), o["tid"]))
+    return {"cmd": "c04.needs", "needs": [[k, v] for k, v in sorted(needs.items())], "events": evs}, where
 
 
 def reentry_scenario(rng, i):
@@ -184,6 +186,14 @@ def run_batch(ctx, bases, stats):
         ref_reqs.append({"cmd": "ref.eval", "model": sc["models"][0], "exprs": sc["exprs"], "inputs": sc["inputs"], "answered": answered})
     refs = ctx.driver(ref_reqs, tag="dr")
     stats["scenarios"] += len(scs)
+    nreq, needs_where = [], {}
+    for k, (sc, res) in enumerate(zip(scs, results)):
+        rq = needs_request(sc, res)
+        if rq:
+            nreq.append((k, rq[0]))
+            needs_where[k] = rq[1]
+    needs_verdicts = dict(zip([k for k, _ in nreq], ctx.driver([r for _, r in nreq], tag="dn")))
+    stats["needs_streams_judged"] = stats.get("needs_streams_judged", 0) + len(nreq)
     final_by_group = {}
     for k, (sc, res, pts, rf, mod) in enumerate(zip(scs, results, ptsl, refs, models)):
         ctx.cov["evaluations"] += 1
@@ -197,9 +207,11 @@ def run_batch(ctx, bases, stats):
         if ov:
             ctx.violation(f"C04|order|{ov[3]}", f"op {ov[0]}: {ov[1]} was started while its predecessor {ov[2]} was {ov[3]}", {"scenario": sc})
             continue
-        nv = needs_violation(sc, res)
-        if nv:
-            ctx.violation("C04|needs-branch-started-early", f"op {nv[0]}: the needs-branch {nv[1]} left pending while the siblings it names were {nv[2]}", {"scenario": sc})
+        nv = needs_verdicts.get(k)
+        if isinstance(nv, dict) and nv.get("ok") is False:
+            opi, _, tid = needs_where[k][nv["at"]] if nv.get("at", -1) < len(needs_where[k]) else (None, None, None)
+            ctx.violation("C04|needs-branch-started-early", f"op {opi}: the needs-branch task {tid} left pending while none of the siblings it names (beneath the same task of the step) "
+                          f"had ended (event {nv.get('at')} of the stream)", {"scenario": sc})
             continue
         if sc.get("no_ref"):
             stats["reentry_runs"] = stats.get("reentry_runs", 0) + 1
@@ -278,6 +290,7 @@ def run(ctx):
     ctx.cov["rule"] = ("workflows of the bounded grammar (depth<=3, <=4 steps, <=3 branches, <=3 acts, conditions over x,y in 0..3), each with several input valuations, "
                        "branch permutations, FIFO/LIFO/random release orders and free-running runs on 1/2/4/8 workers; non-trivial = some branch ran and something was skipped; distinct by (model, inputs)")
     ctx.cov["clauses_proved"] = ["independence of branch declaration order (done / opens / states up to permutation)", "else runs iff no sibling condition held", "a needs-branch is pending until a needed sibling has ended, then runs (needs_branch_waits, needs_started_after_needed)",
+                                 "the needs monitor is sound for every stream and every instance of the branch (accepted_needs_started_after_needed)",
                                  "step starts after predecessor is terminal; acts sequential; skipped step/act hands over", "determinism (by construction)"]
     ctx.cov["clauses_not_proved"] = ["the engine refines Ref (compared node by node at every quiescent point)", "backward next, needs lists that name waiting branches (Op model only)"]
 
